@@ -65,3 +65,44 @@ package journal
 //@   loop 2 invariant [update] forall k int :: 0 <= k && k < $i ==> p.updated[k].update == &updates[k]
 //@   loop 2 invariant [same-stop] forall k int :: 0 <= k && k < $i ==> stopTimes[firstUpdatedStopTimeIndex + k].StopID == stopIDOf(&updates[k])
 //@   assigns nothing
+
+//@ pure func dataEq(a StopTime, b StopTime) bool = a.StopID == b.StopID && a.ArrivalTime == b.ArrivalTime && a.DepartureTime == b.DepartureTime && a.Track == b.Track && a.LastObserved == b.LastObserved
+// an entry that the update no longer reports: data as before, marked past once (C14)
+//@ pure func pastOK(a StopTime, o StopTime, t time.Time) bool = dataEq(a, o) && a.MarkedPast != nil && (o.MarkedPast != nil ==> a.MarkedPast == o.MarkedPast) && (o.MarkedPast == nil ==> *a.MarkedPast == t)
+// an entry the update reports (C14)
+//@ pure func liveOK(a StopTime, u *gtfs.StopTimeUpdate, t time.Time) bool = a.StopID == stopIDOf(u) && a.ArrivalTime == arrivalOf(u) && a.DepartureTime == departureOf(u) && a.Track == u.NyctTrack && a.LastObserved == t && a.MarkedPast == nil
+//@ pure func vehicleIDOf(t *gtfs.Trip) string = (t.Vehicle == nil || t.Vehicle.ID == nil) ? "" : t.Vehicle.ID.ID
+//@ pure func ignored(trip *Trip, tripUpdate *gtfs.Trip) bool = trip.IsAssigned && tripUpdate.Vehicle == nil
+
+//@ func (*Trip).update
+//@   props C14 C15 C05
+//@   requires trip != nil && tripUpdate != nil
+//@   ensures [ignored-update-changes-nothing] old(ignored(trip, tripUpdate)) ==> *trip == old(*trip) && (forall j int :: 0 <= j && j < len(trip.StopTimes) ==> trip.StopTimes[j] == old(trip.StopTimes[j]))
+//@   ensures [identifiers] !old(ignored(trip, tripUpdate)) ==> trip.TripID == tripUpdate.ID.ID && trip.RouteID == tripUpdate.ID.RouteID && trip.DirectionID == tripUpdate.ID.DirectionID && ns(trip.StartTime) == ns(tripUpdate.ID.StartDate) + tripUpdate.ID.StartTime && trip.VehicleID == vehicleIDOf(tripUpdate)
+//@   ensures [accounting] !old(ignored(trip, tripUpdate)) ==> trip.IsAssigned == (old(trip.IsAssigned) || tripUpdate.Vehicle != nil) && trip.NumUpdates == old(trip.NumUpdates) + 1 && trip.LastObserved == feedCreatedAt && trip.MarkedPast == nil
+//@   ensures [ends-with-the-update] !old(ignored(trip, tripUpdate)) ==> len(trip.StopTimes) == len(p.past) + len(tripUpdate.StopTimeUpdates) && (forall k int :: 0 <= k && k < len(tripUpdate.StopTimeUpdates) ==> liveOK(trip.StopTimes[len(p.past) + k], &tripUpdate.StopTimeUpdates[k], feedCreatedAt))
+//@   ensures [passed-stops-kept] !old(ignored(trip, tripUpdate)) ==> len(p.past) <= len(old(trip.StopTimes)) && (forall j int :: 0 <= j && j < len(p.past) ==> pastOK(trip.StopTimes[j], old(trip.StopTimes[j]), feedCreatedAt))
+//@   ensures [nothing-before-first-update-stop-dropped] !old(ignored(trip, tripUpdate)) && len(tripUpdate.StopTimeUpdates) > 0 ==> (forall j int :: 0 <= j && j < len(p.past) ==> old(trip.StopTimes[j]).StopID != stopIDOf(&tripUpdate.StopTimeUpdates[0]))
+//@   loop 1 invariant trip != nil && trip.StopTimes == pre(trip.StopTimes)
+//@   loop 1 invariant forall j int :: 0 <= j && j < $i ==> pastOK(trip.StopTimes[j], old(trip.StopTimes[j]), feedCreatedAt)
+//@   loop 1 invariant forall j int :: $i <= j && j < len(trip.StopTimes) ==> trip.StopTimes[j] == old(trip.StopTimes[j])
+//@   loop 2 invariant trip != nil && trip.StopTimes == pre(trip.StopTimes)
+//@   loop 2 invariant forall j int :: 0 <= j && j < len(p.past) ==> pastOK(trip.StopTimes[j], old(trip.StopTimes[j]), feedCreatedAt)
+//@   loop 2 invariant forall k int :: 0 <= k && k < $i ==> liveOK(trip.StopTimes[len(p.past) + k], &tripUpdate.StopTimeUpdates[k], feedCreatedAt)
+//@   loop 2 invariant forall j int :: len(p.past) + $i <= j && j < len(trip.StopTimes) ==> trip.StopTimes[j] == old(trip.StopTimes[j])
+//@   loop 3 invariant trip != nil && len(trip.StopTimes) == len(p.past) + len(p.updated) + $i
+//@   loop 3 invariant forall j int :: 0 <= j && j < len(p.past) ==> pastOK(trip.StopTimes[j], old(trip.StopTimes[j]), feedCreatedAt)
+//@   loop 3 invariant forall k int :: 0 <= k && k < len(p.updated) + $i ==> liveOK(trip.StopTimes[len(p.past) + k], &tripUpdate.StopTimeUpdates[k], feedCreatedAt)
+
+// C15: "marking a trip past marks all its not-yet-past stops past"; marks are set once
+//@ func (*Trip).markPast
+//@   props C15 C14 C05
+//@   requires trip != nil
+//@   ensures [trip-mark-once] old(trip.MarkedPast) != nil ==> trip.MarkedPast == old(trip.MarkedPast)
+//@   ensures [trip-first-mark] old(trip.MarkedPast) == nil ==> trip.MarkedPast != nil && *trip.MarkedPast == feedCreatedAt
+//@   ensures [stops] trip.StopTimes == old(trip.StopTimes) && (forall j int :: 0 <= j && j < len(trip.StopTimes) ==> pastOK(trip.StopTimes[j], old(trip.StopTimes[j]), feedCreatedAt))
+//@   ensures [rest-untouched] trip.TripUID == old(trip.TripUID) && trip.TripID == old(trip.TripID) && trip.VehicleID == old(trip.VehicleID) && trip.IsAssigned == old(trip.IsAssigned) && trip.NumUpdates == old(trip.NumUpdates) && trip.LastObserved == old(trip.LastObserved) && trip.StartTime == old(trip.StartTime)
+//@   loop 1 invariant 0 <= i && i <= len(trip.StopTimes) && trip.StopTimes == old(trip.StopTimes) && trip != nil
+//@   loop 1 invariant forall j int :: 0 <= j && j < i ==> pastOK(trip.StopTimes[j], old(trip.StopTimes[j]), feedCreatedAt)
+//@   loop 1 invariant forall j int :: i <= j && j < len(trip.StopTimes) ==> trip.StopTimes[j] == old(trip.StopTimes[j])
+//@   loop 1 decreases len(trip.StopTimes) - i
